@@ -539,7 +539,177 @@ fn timeout_case(ctx: &mut Ctx, index: u64, rng: &mut Rng) {
     ctx.sample(desc);
 }
 
+// ---------------------------------------------------------------------------------------------------------------
+// Class "real-daemon": several OS threads of one connection call a service on another connection through a PRIVATE real
+// dbus-daemon, all at once, each call carrying a unique number that the service echoes back (as a return or inside an
+// error, after a delay that shuffles the reply order). Every caller must get exactly the answer to its own call. The
+// service is the library's own object server (its handlers run concurrently), so both ends are real.
+
+#[cfg(not(miri))]
+mod real {
+    use crate::harness::realbus::*;
+    use serde_json::json;
+    use std::time::Duration;
+    use vcommon::Ctx;
+    use vref::prng::{fnv, Rng};
+
+    struct Echo;
+
+    #[zbus::interface(name = "t.Echo")]
+    impl Echo {
+        /// Answers with the number it was given; the delay (taken from the number) makes replies overtake each other.
+        async fn echo(&self, n: u64) -> u64 {
+            let d = (n >> 56) & 0x7;
+            if d > 0 {
+                async_io_sleep(Duration::from_micros(150 * d)).await;
+            }
+            n
+        }
+
+        async fn fail(&self, n: u64) -> zbus::fdo::Result<u64> {
+            let d = (n >> 56) & 0x3;
+            if d > 0 {
+                async_io_sleep(Duration::from_micros(200 * d)).await;
+            }
+            Err(zbus::fdo::Error::Failed(format!("no:{n}")))
+        }
+    }
+
+    /// A timer that needs no particular runtime: a helper thread completes the future.
+    async fn async_io_sleep(d: Duration) {
+        let (tx, rx) = one_shot();
+        std::thread::spawn(move || {
+            std::thread::sleep(d);
+            tx();
+        });
+        rx.await;
+    }
+
+    /// A one-shot (closure to fire, future to await) built on event-listener.
+    fn one_shot() -> (Box<dyn FnOnce() + Send>, std::pin::Pin<Box<dyn std::future::Future<Output = ()> + Send>>) {
+        let ev = std::sync::Arc::new(event_listener::Event::new());
+        let flag = std::sync::Arc::new(std::sync::atomic::AtomicBool::new(false));
+        let (e2, f2) = (ev.clone(), flag.clone());
+        let fire = Box::new(move || {
+            f2.store(true, std::sync::atomic::Ordering::SeqCst);
+            e2.notify(usize::MAX);
+        });
+        let wait = Box::pin(async move {
+            loop {
+                if flag.load(std::sync::atomic::Ordering::SeqCst) {
+                    return;
+                }
+                let l = ev.listen();
+                if flag.load(std::sync::atomic::Ordering::SeqCst) {
+                    return;
+                }
+                l.await;
+            }
+        });
+        (fire, wait)
+    }
+
+    pub fn history(ctx: &mut Ctx, index: u64, rng: &mut Rng, daemon: &Daemon) -> Result<(), String> {
+        ctx.count("evaluations", 1);
+        ctx.count("class:real-daemon", 1);
+        let service = zbus::blocking::connection::Builder::address(daemon.address.as_str())
+            .and_then(|b| b.serve_at("/e", Echo))
+            .and_then(|b| b.build())
+            .map_err(|e| format!("cannot start the echo service on the private bus: {e}"))?;
+        let dest = service.unique_name().map(|u| u.to_string()).ok_or("no unique name")?;
+        let a = daemon.connect()?;
+        let threads = 2 + rng.usize_below(7);
+        let per = if ctx.thorough() { 20 + rng.usize_below(80) } else { 10 + rng.usize_below(30) };
+        let mut joins = Vec::new();
+        for t in 0..threads {
+            let conn = a.clone();
+            let dest = dest.clone();
+            let mut trng = Rng::new(rng.next_u64());
+            joins.push(std::thread::spawn(move || {
+                // (what was asked, what came back)
+                let mut out: Vec<(u64, bool, Result<u64, String>)> = Vec::new();
+                for k in 0..per {
+                    let n: u64 = (trng.below(8) << 56) | ((t as u64) << 32) | k as u64;
+                    let fail = trng.chance(1, 4);
+                    let r = conn.call_method(Some(dest.as_str()), "/e", Some("t.Echo"), if fail { "Fail" } else { "Echo" }, &(n,));
+                    let got = match r {
+                        Ok(m) => m.body().deserialize::<u64>().map_err(|e| format!("body: {e}")),
+                        Err(zbus::Error::MethodError(name, text, _)) => Err(format!("{}:{}", name.as_str(), text.unwrap_or_default())),
+                        Err(e) => Err(format!("other: {e}")),
+                    };
+                    out.push((n, fail, got));
+                }
+                out
+            }));
+        }
+        let (tx, rx) = std::sync::mpsc::channel();
+        std::thread::spawn(move || {
+            let out: Vec<_> = joins.into_iter().map(|j| j.join()).collect();
+            let _ = tx.send(out);
+        });
+        let out = rx.recv_timeout(Duration::from_secs(180)).map_err(|_| format!("C19 real-daemon history {index}: {threads} callers x {per} calls did not finish within 180 s"))?;
+        for (t, j) in out.into_iter().enumerate() {
+            let calls = match j {
+                Ok(c) => c,
+                Err(e) => std::panic::resume_unwind(e),
+            };
+            for (n, fail, got) in calls {
+                ctx.count("real_calls_checked", 1);
+                let ok = match (&got, fail) {
+                    (Ok(v), false) => *v == n,
+                    (Err(e), true) => *e == format!("org.freedesktop.DBus.Error.Failed:no:{n}"),
+                    _ => false,
+                };
+                if !ok {
+                    ctx.finding(index, "wrong-reply-delivered", if fail { "error-call" } else { "echo-call" }, "real-daemon",
+                        json!({"thread": t, "asked": n, "asked_for_error": fail, "got": format!("{got:?}"), "threads": threads, "calls_per_thread": per}));
+                    return Ok(());
+                }
+            }
+        }
+        ctx.distinct(fnv(&format!("real|{threads}|{per}")) ^ index);
+        if index % 16 == 0 {
+            ctx.sample(json!({"real_daemon_calls": {"threads": threads, "calls_per_thread": per}}));
+        }
+        Ok(())
+    }
+
+    pub fn run(ctx: &mut Ctx) {
+        let n = ctx.budget(200, 6000);
+        let daemon = match Daemon::start("c19") {
+            Ok(d) => d,
+            Err(e) => {
+                ctx.problem(&format!("C19 real-daemon class: {e}"));
+                return;
+            }
+        };
+        for k in 0..n {
+            let i = 3_000_000_000 + k;
+            if !ctx.want(i) {
+                continue;
+            }
+            let mut rng = ctx.rng(i);
+            let mut trouble = None;
+            ctx.guarded(i, "real-daemon", || json!({}), |ctx| {
+                if let Err(e) = history(ctx, i, &mut rng, &daemon) {
+                    trouble = Some(e);
+                }
+            });
+            if let Some(e) = trouble {
+                ctx.problem(&format!("C19 real-daemon history {i}: {e}"));
+                return;
+            }
+        }
+    }
+}
+
 pub fn run(ctx: &mut Ctx) {
+    #[cfg(not(miri))]
+    real::run(ctx);
+    // `--x-only real-daemon`: only the class on the real bus (the ThreadSanitizer layer)
+    if ctx.args.extra.get("only").map(|s| s == "real-daemon").unwrap_or(false) {
+        return;
+    }
     let n = ctx.budget(3000, 150_000);
     for i in 0..n {
         if !ctx.want(i) {
